@@ -30,6 +30,12 @@ import (
 //	C13.std.trim <s>              strings.TrimSpace
 //	C13.std.split <s> <sep>       strings.Split
 //	C13.std.fold1 <orbits>        contract FOLD-1 (orbits = those of all ASCII runes and U+FFFD)
+//	C13.std.simplefold <lo> <hi>  unicode.SimpleFold on the runes [lo, hi): the pairs r:f with
+//	                              f = SimpleFold(r) != r ("-" if none).  Tie of the Lean model
+//	                              Unicode.simpleFold (the object of theorem fold1_model); the
+//	                              generator covers every rune 0..MaxRune and values above
+//	                              MaxRune on every run; each case also checks that negative
+//	                              runes (outside the model's domain) are returned unchanged.
 //
 // The std.* ops compare the Lean models of stdlib functions with the real ones
 // (tie only; their direct oracle is vacuous).
@@ -211,6 +217,13 @@ func evalC13(c string) Result {
 	case "C13.std.split":
 		sp := strings.Split(string(unhx(f[1])), string(unhx(f[2])))
 		return Result{Impl: showStrs(sp == nil, sp), Direct: "ok", Class: "trivial-std.split"}
+	case "C13.std.simplefold":
+		lo, err1 := strconv.ParseInt(f[1], 16, 64)
+		hi, err2 := strconv.ParseInt(f[2], 16, 64)
+		if err1 != nil || err2 != nil || lo < 0 || hi < lo || hi-lo > simpleFoldMaxSpan || hi > 1<<31 {
+			return Result{Impl: "bad-op", Direct: "ok", Class: "trivial-bad-line"}
+		}
+		return Result{Impl: sweepSimpleFold(lo, hi), Direct: "ok", Class: "trivial-std.simplefold"}
 	case "C13.std.fold1":
 		if f[1] != asciiOrbitsField() {
 			return Result{Impl: "BAD-ORACLE-FIELD", Direct: "ok", Class: "trivial-bad-line"}
@@ -218,6 +231,55 @@ func evalC13(c string) Result {
 		return Result{Impl: sweepFold1(), Direct: "ok", Class: "trivial-std.fold1"}
 	}
 	panic("bad op " + f[0])
+}
+
+// simpleFoldMaxSpan mirrors GolibsVerif.Driver.C13.simpleFoldMaxSpan.
+const simpleFoldMaxSpan = 0x10000
+
+// sweepSimpleFold lists the runes of [lo, hi) that the real unicode.SimpleFold moves, with
+// their images.  The Lean model works on natural numbers; that a negative rune is returned
+// unchanged (the first statement of SimpleFold) is checked here on a spread of negative values
+// depending on the case, and reported in the Impl string (so that it shows as a mismatch).
+func sweepSimpleFold(lo, hi int64) string {
+	var sb strings.Builder
+	for x := lo; x < hi; x++ {
+		r := rune(x)
+		if f := unicode.SimpleFold(r); f != r {
+			if sb.Len() > 0 {
+				sb.WriteByte(',')
+			}
+			sb.WriteString(strconv.FormatInt(int64(r), 16))
+			sb.WriteByte(':')
+			sb.WriteString(strconv.FormatInt(int64(f), 16))
+		}
+	}
+	if sb.Len() == 0 {
+		sb.WriteByte('-')
+	}
+	for _, x := range []int64{-1, -2, -0x41, -0x61, -0x212a, -lo - 1, -hi, -(lo+hi)/2 - 1, -0x10ffff, -0x110000, -1 << 31} {
+		if x >= 0 || x < -1<<31 {
+			continue
+		}
+		if f := unicode.SimpleFold(rune(x)); f != rune(x) {
+			fmt.Fprintf(&sb, ";NEGATIVE-RUNE-MOVED(%d->%d)", x, f)
+		}
+	}
+	return sb.String()
+}
+
+// genSimpleFoldSweep: cases covering every rune 0..MaxRune in chunks, the runes just above
+// MaxRune, and the top of the int32 range.
+func genSimpleFoldSweep() (cases []string) {
+	const span = 0x2000
+	for lo := int64(0); lo <= unicode.MaxRune; lo += span {
+		cases = append(cases, fmt.Sprintf("C13.std.simplefold %x %x", lo, lo+span))
+	}
+	// (the last chunk above already ends at MaxRune+1 = 0x110000)
+	cases = append(cases,
+		"C13.std.simplefold 110000 110100",
+		"C13.std.simplefold 7fffff00 80000000",
+	)
+	return cases
 }
 
 // sweepFold1 checks contract FOLD-1 on the real unicode.SimpleFold over every rune:
@@ -773,6 +835,7 @@ func corpusC13() (cases []string) {
 		cases = append(cases, mkST(p[0], p[1]))
 	}
 	cases = append(cases, "C13.std.fold1 "+asciiOrbitsField())
+	cases = append(cases, "C13.std.simplefold 0 2000", "C13.std.simplefold 10e000 110100", "C13.std.simplefold 7fffff00 80000000")
 	return cases
 }
 
@@ -782,6 +845,8 @@ func genC13(rng *rand.Rand, tier string) (cases []string) {
 		return corpusC13()
 	}
 	cases = append(cases, "C13.std.fold1 "+asciiOrbitsField())
+	// the model of unicode.SimpleFold against the real function on every rune (all tiers)
+	cases = append(cases, genSimpleFoldSweep()...)
 	// boundary shapes
 	for _, p := range [][2]string{{"", ""}, {"a", ""}, {"", "a"}, {"k", "K"}, {"K", "K"}, {"K", "k"}, {"ab", "abc"}, {"\ufffd", "\ufffd"}, {"a\ufffdb", "\ufffd"}, {"\xff", "\xff"}, {"a\xffb", "\xfe"}, {"é", "\xa9"}, {"xé", "\xa9"}} {
 		cases = append(cases, mkCF(p[0], p[1]))
@@ -861,6 +926,14 @@ func candsC13(c string) (res []string) {
 	case "C13.std.idx":
 		for _, v := range smallerStrings(string(unhx(f[1]))) {
 			res = append(res, f[0]+" "+hx([]byte(v))+" "+f[2])
+		}
+	case "C13.std.simplefold":
+		// halve the range: a disagreement is narrowed down to one rune
+		lo, err1 := strconv.ParseInt(f[1], 16, 64)
+		hi, err2 := strconv.ParseInt(f[2], 16, 64)
+		if err1 == nil && err2 == nil && hi-lo >= 2 {
+			m := lo + (hi-lo)/2
+			res = append(res, fmt.Sprintf("%s %x %x", f[0], lo, m), fmt.Sprintf("%s %x %x", f[0], m, hi))
 		}
 	}
 	return res
